@@ -145,7 +145,11 @@ pub fn take_until_and_not<'a>(
                 (Some(offset), None) => {
                     Ok(i.take_split(index + offset)).map(|(rem, res)| (rem, res.into_inner()))
                 }
-                (Some(_), Some(offset)) => recursive_until(i, index + offset + 2, t1, t2),
+                // The end tag comes first: a `however_tag` further down belongs to something else.
+                (Some(end), Some(however)) if end < however => {
+                    Ok(i.take_split(index + end)).map(|(rem, res)| (rem, res.into_inner()))
+                }
+                (Some(_), Some(offset)) => recursive_until(i, index + offset + t2.len(), t1, t2),
             }
         }
         let res: ParserResult<'_, _> = recursive_until(i, 0, end_tag, however_tag);
